@@ -55,15 +55,26 @@ def compute_LMTD_from_ts(
     )
 
 
+def _arrangement(a):
+    """Accept an arrangement as the enum member or as its text."""
+    if isinstance(a, HX):
+        return a
+    try:
+        return HX(a)
+    except ValueError:
+        return a
+
+
 def HX_Eff(Arrangement, Ntu, c, Passes=None, Rows=None, Cmin_Phase=None):
     """Return heat-exchanger effectiveness for the specified arrangement/NTU/c ratio."""
+    Arrangement = _arrangement(Arrangement)
     if Passes == None:
         Passes = 1
 
     Ntu = Ntu / Passes
     if Ntu > 0 and c >= 0:
         # Counter Flow - Single Pass Effectiveness
-        if Arrangement == HX.CF.value:
+        if Arrangement == HX.CF:
             # test = c * math.exp(-Ntu * (1 - c))
             if c != 1 and c * math.exp(-Ntu * (1 - c)) != 1:
                 eff = (1 - math.exp(-Ntu * (1 - c))) / (
@@ -72,7 +83,7 @@ def HX_Eff(Arrangement, Ntu, c, Passes=None, Rows=None, Cmin_Phase=None):
             else:
                 eff = Ntu / (1 + Ntu)
         # Parallel Flow - Single Pass Effectiveness
-        elif Arrangement == HX.PF.value:
+        elif Arrangement == HX.PF:
             eff = (1 - math.exp(-Ntu * (1 + c))) / (1 + c)
         # Cross Flow - Both Streams Unmixed Effectiveness
         elif Arrangement == HX.CrFUU:
@@ -92,7 +103,7 @@ def HX_Eff(Arrangement, Ntu, c, Passes=None, Rows=None, Cmin_Phase=None):
         elif Arrangement == HX.CrFMUmin:
             eff = 1 / c * (1 - math.exp(-c * (1 - math.exp(-Ntu))))
         # Shell and Tube - One Shell Pass; 2,4,6, etc., Tube Passes Effectiveness
-        elif Arrangement == HX.ShellTube.value:
+        elif Arrangement == HX.ShellTube:
             d = (1 + c**2) ** 0.5
             eff = 2 / ((1 + c) + d**0.5 * Coth(Ntu * d / 2))
         # Condensing or Evaporating of One Fluid
@@ -112,6 +123,7 @@ def HX_Eff(Arrangement, Ntu, c, Passes=None, Rows=None, Cmin_Phase=None):
 
 def HX_NTU(Arrangement, eff, c, Passes=None):
     """Compute the NTU corresponding to a target effectiveness for a given arrangement."""
+    Arrangement = _arrangement(Arrangement)
     if Passes == None:
         Passes = 1
 
@@ -121,13 +133,13 @@ def HX_NTU(Arrangement, eff, c, Passes=None):
 
     if eff > 0 and eff < 1:
         # Counter Flow - Single Pass Effectiveness
-        if Arrangement == HX.CF.value:
+        if Arrangement == HX.CF:
             if c != 1:
                 Ntu = 1 / (1 - c) * math.log((1 - eff * c) / (1 - eff))
             else:
                 Ntu = eff / (1 - eff)
         # Parallel Flow - Single Pass Effectiveness
-        elif Arrangement == HX.PF.value:
+        elif Arrangement == HX.PF:
             Ntu = -math.log(1 - eff * (1 + c)) / (1 + c)
         # Cross Flow - Both Streams Unmixed NTU
         elif Arrangement == HX.CrFUU:
@@ -142,7 +154,7 @@ def HX_NTU(Arrangement, eff, c, Passes=None):
         elif Arrangement == HX.CrFMUmin:
             Ntu = -math.log(1 + 1 / c * math.log(1 - eff * c))
         # Shell and Tube - One Shell Pass; 2,4,6, etc., Tube Passes NTU
-        elif Arrangement == HX.ShellTube.value:
+        elif Arrangement == HX.ShellTube:
             D1 = 1 + c - (1 + c**2) ** (1 / 4)
             D2 = 1 + c + (1 + c**2) ** (1 / 4)
             Ntu = (1 + c**2) ** -0.5 * math.log((2 - eff * D1) / (2 - eff * D2))
